@@ -155,7 +155,14 @@ def config(vc):
         clock.__dict__.update(datetime_start=start, julian_date_start=datetimeToJulianDate(start), time=ScenarioTime(0), dt_step=ScenarioTime(60.0))
         for _ in range(k):
             clock.ticToc()
-        dyn = dynamicsFactory(_NS(platform=GroundFacilityConfig(), state=LLAStateConfig(latitude=lat, longitude=lon, altitude=alt)), None, None, None, clock)
+        # ONE parsed site description, used first for a run that starts at another instant (a sweep over start times re-uses the parsed configuration; Scenario.addSensor asks the
+        # same object at the run's start and at the current epoch): the second facility must not inherit anything from the first
+        site_cfg = _NS(platform=GroundFacilityConfig(), state=LLAStateConfig(latitude=lat, longitude=lon, altitude=alt))
+        other = object.__new__(ScenarioClock)
+        other_start = start + datetime.timedelta(seconds=vc.int("other_start_off", 600, 86400))
+        other.__dict__.update(datetime_start=other_start, julian_date_start=datetimeToJulianDate(other_start), time=ScenarioTime(0), dt_step=ScenarioTime(60.0))
+        dynamicsFactory(site_cfg, None, None, None, other)
+        dyn = dynamicsFactory(site_cfg, None, None, None, clock)
         want = lla2ecef(np.array([np.radians(lat), np.radians(lon), alt]))
         ecef = np.asarray(dyn.x_ecef, dtype=float)
         vc.ensure("O-C11-config", bool(np.linalg.norm(ecef[:3] - want[:3]) < 1e-6 and np.linalg.norm(ecef[3:]) < 1e-9))
@@ -192,3 +199,11 @@ from pyvc.harness import share as _share  # noqa: E402
 _share("C05", "cal", "C11")
 _share("C05", "roundtrip", "C11")
 _share("C04", "lla_fwd", "C11")
+
+
+# the facility's own report of where it is (SensingAgent.lla_state / ecef_state, refreshed eagerly by the eci_state setter at the agent's CURRENT epoch) stays on the
+# configured site only if the clock is written before the state - after a propagation result (C10 truth_job: writes are [time, eci_state] in that order) and after an
+# import (C19 state: the conversion uses the record's epoch); both re-checked in this property's own run
+from contracts import C10 as _C10, C19 as _C19  # noqa: E402,F401
+_share("C10", "truth_job", "C11")
+_share("C19", "state", "C11")
